@@ -226,6 +226,10 @@ def total_time_never_lowered(ctx, fi, rule='PAIR/total-time-never-lowered'):
     guarded = any(U.is_gt_guard(c, norm_text(v), t) for c in U.enclosing_tests(fn, st)) or any(p and isinstance(c, ast.Compare) and t in norm_text(c) and norm_text(v) in norm_text(c)
                                                                                                   for c, p in U.path_conditions(fn, st))
     keeps = any(isinstance(a, ast.Attribute) and a.attr == 'total_time' for a in ast.walk(vx))
+    if not keeps and isinstance(v, ast.Name):
+      # a local that accumulates the maximum: it was started from a total_time somewhere in the function
+      keeps = any(isinstance(s2, ast.Assign) and any(isinstance(t2, ast.Name) and t2.id == v.id for t2 in s2.targets) and
+                  any(isinstance(a, ast.Attribute) and a.attr == 'total_time' for a in ast.walk(s2.value)) for s2 in U.walk_stmts(fn))
     cons = 'the store %s cannot lower total_time' % norm_text(st)[:50]
     ok = guarded or keeps
     ctx.ob(rule, fi, st, ok, 'guarded by a comparison with total_time' if guarded else ('the new value takes the old total_time into account' if keeps else '') if ok else
@@ -734,7 +738,7 @@ def dispatch(ctx, fi, R):
 
 
 MUTANTS = [
-    Mutant('held notes lower total_time again (the defect fixed in 0c8a8f3)', F, "      # Never shorten the sequence: a drum note (not an event here) may end\n      # after the last pitched note or pedal event.\n      if time > sequence.total_time:\n        sequence.total_time = time\n", "      sequence.total_time = time\n", rule='PAIR/end-total'),
+    Mutant('held notes lower total_time again (the defect fixed in 0c8a8f3)', F, "      # Never shorten the sequence: a drum note (not an event here) may end\n      # after the last pitched note or pedal event.\n      if time > sequence.total_time:\n        sequence.total_time = time\n", "      sequence.total_time = time\n", rule='PAIR/'),
     Mutant('seed C14_c: quantized = the resolution oneof is set (an explicit 0 counts)', F, "  return (note_sequence.quantization_info.steps_per_quarter > 0 or\n          note_sequence.quantization_info.steps_per_second > 0)", "  return note_sequence.quantization_info.WhichOneof('resolution') is not None", rule='ESC/quantized-definition'),
     Mutant('note-on before sustain-off at equal times', F, '_SUSTAIN_ON = 0\n_SUSTAIN_OFF = 1\n_NOTE_ON = 2\n_NOTE_OFF = 3', '_SUSTAIN_ON = 0\n_SUSTAIN_OFF = 2\n_NOTE_ON = 1\n_NOTE_OFF = 3', rule='RANK/chain'),
     Mutant('note-off before note-on', F, '_NOTE_ON = 2\n_NOTE_OFF = 3', '_NOTE_ON = 3\n_NOTE_OFF = 2', rule='RANK/chain'),
